@@ -735,13 +735,27 @@ bool WPA2Decrypter::decrypt(PDU& pdu) {
         if (data && raw && data->wep()) {
             // search for the tuple (bssid, src_addr)
             keys_map::const_iterator it = keys_.find(extract_addr_pair(*data));
-            
-            // search for the tuple (bssid, dst_addr) if the above didn't work
+            // search for the tuple (bssid, dst_addr) as well: a frame relayed by
+            // the AP carries another station as source but uses the receiver's key
+            keys_map::const_iterator dst_it = keys_.find(extract_addr_pair_dst(*data));
             if (it == keys_.end()) {
-                it = keys_.find(extract_addr_pair_dst(*data));
+                it = dst_it;
+                dst_it = keys_.end();
+            }
+            else if (dst_it == it) {
+                dst_it = keys_.end();
             }
             if (it != keys_.end()) {
+                // Decryption happens in place, keep the payload if there's a second key to try
+                RawPDU::payload_type original;
+                if (dst_it != keys_.end()) {
+                    original = raw->payload();
+                }
                 SNAP* snap = it->second.decrypt_unicast(*data, *raw);
+                if (!snap && dst_it != keys_.end()) {
+                    raw->payload(original);
+                    snap = dst_it->second.decrypt_unicast(*data, *raw);
+                }
                 if (snap) {
                     data->inner_pdu(snap);
                     data->wep(0);
